@@ -160,7 +160,21 @@ fn fam_lzma(ctx: &CaseCtx, cov: &mut Cov) -> CaseOut {
                 let want = f.len();
                 f.extend_from_slice(&t);
                 match sut::raw_lzma_new(props.lc, props.lp, props.pb, 4096, Some(len), None) {
-                    Ok(mut d) => (sut::raw_lzma_decompress(&mut d, &f, rk, &sink, &obs), f, want),
+                    Ok(mut d) => {
+                        let first = sut::raw_lzma_decompress(&mut d, &f, rk, &sink, &obs);
+                        // a container with several members: the same decoder object, reset, decodes the
+                        // next member in place (reset(None) keeps the size, reset(Some(..)) sets it)
+                        if first.verdict.is_ok() && rng.chance(1, 2) {
+                            let keep = rng.chance(1, 2);
+                            let _ = sut::guarded(|| d.reset(if keep { None } else { Some(Some(len)) }));
+                            let sink2 = SharedSink::new();
+                            let c2 = sut::raw_lzma_decompress(&mut d, &f, rk, &sink2, &sut::new_obs(u64::MAX));
+                            out.evals += 1;
+                            cov.name(if keep { "raw_decoder_second_member_after_reset(None)" } else { "raw_decoder_second_member_after_reset(Some(size))" }, 1);
+                            judge_exact(&mut out, cov, api, rk, &c2.verdict, c2.consumed, want, f.len(), &sink2.bytes(), &enc.output, &f);
+                        }
+                        (first, f, want)
+                    }
                     Err(v) => {
                         out.harness_error(format!("raw constructor: {}", v.short()));
                         return out;
